@@ -178,6 +178,140 @@ def compileList (c : Ctx) : List Expr → List Instr
   | e :: es => compile c e ++ compileList c es
 end
 
+
+/-! ### side conditions of the correctness theorems (Thm/C04.lean, compile_correct…)
+
+`WF env c l e` collects, for `e` and every sub-expression (in every loop iteration), what the theorems assume:
+ * static typing as the compiler sees it (`tyOf`) and values of the promised shape, no floats
+   (Lean's `Float` is opaque to proofs) and no `P% of` (computed in double precision, finding F20);
+ * no integer value equal to the YR_UNDEFINED sentinel (finding F14);
+ * quantifier expressions are defined (finding F18);
+ * loop bodies and left operands of `or` have a 0/1 VM value (finding F19);
+ * ranges end below INT64_MAX (the iterator's `next++` would wrap). -/
+
+/-- the value has the shape its static type promises, and is not an integer equal to the sentinel -/
+def ValOk : Ty → Val → Prop
+  | .int, v => v = .undef ∨ ∃ i, v = .int i ∧ i ≠ C.UNDEF
+  | .str, v => v = .undef ∨ ∃ s, v = .str s
+  | .bool, v => v = .undef ∨ ∃ b, v = .bool b
+  | .flt, _ => False
+
+/-- an integer used as a truth value is 0 or 1 -/
+def BoolWord (v : Val) : Prop := ∀ i, v = .int i → i = 0 ∨ i = 1
+
+def SRefOk (c : Ctx) (l : LEnv) : SRef → Prop
+  | .id _ => True
+  | .cur => (∃ n, l.cur = some n) ∧ c.ofSlot.isSome = true
+
+/-- memory blocks lie in the lower half of the address space (so no block contains a negative or the
+    sentinel offset reinterpreted as size_t) -/
+def EnvOk (env : Env) : Prop := ∀ b ∈ env.blocks, b.1 + b.2.length ≤ 9223372036854775808
+
+mutual
+def WF (env : Env) (c : Ctx) : LEnv → Expr → Prop
+  | _, .int v => v ≠ C.UNDEF
+  | _, .flt _ => False
+  | _, .str _ => True
+  | _, .filesize => env.filesize ≠ C.UNDEF
+  | _, .ext n => ValOk (c.extTy n) (lookupExt env n)
+  | l, .var k => c.vars.getD k .bool ≠ .bool ∧ ValOk (c.vars.getD k .int) (l.vars.getD k .undef)
+  | _, .undefOf t => t ≠ .f
+  | l, .count s => SRefOk c l s
+  | l, .countIn s lo hi =>
+      SRefOk c l s ∧ WF env c l lo ∧ WF env c l hi ∧ tyOf c lo = .int ∧ tyOf c hi = .int
+  | l, .offset s i => SRefOk c l s ∧ WF env c l i ∧ tyOf c i = .int ∧ ValOk .int (eval env l (.offset s i))
+  | l, .length s i => SRefOk c l s ∧ WF env c l i ∧ tyOf c i = .int ∧ ValOk .int (eval env l (.length s i))
+  | l, .read k off =>
+      WF env c l off ∧ tyOf c off = .int ∧ ValOk .int (eval env l (.read k off)) ∧
+      (∀ a, eval env l off = .int a → C.inRange a)
+  | l, .neg e => WF env c l e ∧ tyOf c e = .int ∧ ValOk .int (eval env l (.neg e))
+  | l, .bnot e => WF env c l e ∧ tyOf c e = .int ∧ ValOk .int (eval env l (.bnot e))
+  | l, .arith op a b =>
+      WF env c l a ∧ WF env c l b ∧ tyOf c a = .int ∧ tyOf c b = .int ∧ ValOk .int (eval env l (.arith op a b))
+  | _, .tt => True
+  | _, .ff => True
+  | l, .found s => SRefOk c l s
+  | l, .foundAt s pos => SRefOk c l s ∧ WF env c l pos ∧ tyOf c pos = .int
+  | l, .foundIn s lo hi =>
+      SRefOk c l s ∧ WF env c l lo ∧ WF env c l hi ∧ tyOf c lo = .int ∧ tyOf c hi = .int
+  | l, .cmp _ a b =>
+      WF env c l a ∧ WF env c l b ∧
+      ((tyOf c a = .int ∧ tyOf c b = .int) ∨ (tyOf c a = .str ∧ tyOf c b = .str))
+  | l, .strop _ a b => WF env c l a ∧ WF env c l b ∧ tyOf c a = .str ∧ tyOf c b = .str
+  | l, .matches a _ _ => WF env c l a ∧ tyOf c a = .str
+  | l, .not e => WF env c l e
+  | l, .defined e => WF env c l e
+  | l, .and a b => WF env c l a ∧ WF env c l b
+  | l, .or a b => WF env c l a ∧ WF env c l b ∧ BoolWord (eval env l a)
+  | _, .ruleRef _ => True
+  | l, .ofStr q qe _ => (q = .num → WF env c l qe ∧ tyOf c qe = .int ∧ eval env l qe ≠ .undef)
+  | l, .ofStrIn q qe _ lo hi =>
+      (q = .num → WF env c l qe ∧ tyOf c qe = .int ∧ eval env l qe ≠ .undef) ∧
+      WF env c l lo ∧ WF env c l hi ∧ tyOf c lo = .int ∧ tyOf c hi = .int
+  | l, .ofStrAt q qe _ pos =>
+      (q = .num → WF env c l qe ∧ tyOf c qe = .int ∧ eval env l qe ≠ .undef) ∧ WF env c l pos ∧ tyOf c pos = .int
+  | _, .pctStr _ _ => False
+  | l, .ofRules q qe _ => (q = .num → WF env c l qe ∧ tyOf c qe = .int ∧ eval env l qe ≠ .undef)
+  | _, .pctRules _ _ => False
+  | l, .forRange q qe lo hi body =>
+      (q = .num → WF env c l qe ∧ tyOf c qe = .int ∧ eval env l qe ≠ .undef) ∧
+      WF env c l lo ∧ WF env c l hi ∧ tyOf c lo = .int ∧ tyOf c hi = .int ∧ c.vars.length < 4 ∧
+      (∀ b, eval env l hi = .int b → b < C.INT64_MAX) ∧
+      (∀ v, v ∈ intRange (eval env l lo) (eval env l hi) →
+        WF env { c with vars := c.vars ++ [.int] } { l with vars := l.vars ++ [v] } body ∧
+        BoolWord (eval env { l with vars := l.vars ++ [v] } body))
+  | l, .forEnum q qe items body =>
+      (q = .num → WF env c l qe ∧ tyOf c qe = .int ∧ eval env l qe ≠ .undef) ∧
+      WFList env c l items ∧ c.vars.length < 4 ∧
+      (∀ v, v ∈ evalList env l items →
+        WF env { c with vars := c.vars ++ [match items with | [] => Ty.int | e :: _ => tyOf c e] }
+           { l with vars := l.vars ++ [v] } body ∧
+        BoolWord (eval env { l with vars := l.vars ++ [v] } body))
+  | l, .forOf q qe set body =>
+      (q = .num → WF env c l qe ∧ tyOf c qe = .int ∧ eval env l qe ≠ .undef) ∧ c.vars.length < 4 ∧
+      (∀ n, n ∈ set →
+        WF env { c with vars := c.vars ++ [.bool], ofSlot := some (4 * c.vars.length + 3) }
+           { vars := l.vars ++ [.undef], cur := some n } body ∧
+        BoolWord (eval env { vars := l.vars ++ [.undef], cur := some n } body))
+def WFList (env : Env) (c : Ctx) : LEnv → List Expr → Prop
+  | _, [] => True
+  | l, e :: es => WF env c l e ∧ tyOf c e ≠ .flt ∧ tyOf c e ≠ .bool ∧ WFList env c l es
+end
+
+/-- the value of every sub-expression reached has the shape of its static type (no sentinel collision) -/
+def Typed (env : Env) (c : Ctx) (l : LEnv) (e : Expr) : Prop := ValOk (tyOf c e) (eval env l e)
+
+/-- the VM's loop memory holds the loop variables of the specification's loop context -/
+def MemInv (c : Ctx) (l : LEnv) (mem : List Int) : Prop :=
+  c.vars.length = l.vars.length ∧
+  (∀ k, c.vars.getD k .bool ≠ .bool → getM mem (4 * k + 3) = toVm (l.vars.getD k .undef)) ∧
+  (∀ n, l.cur = some n → ∃ slot, c.ofSlot = some slot ∧ getM mem slot = encStr n)
+
+/-- no loops and no `P% of` inside -/
+def loopFree : Expr → Bool
+  | .countIn _ lo hi => loopFree lo && loopFree hi
+  | .offset _ i => loopFree i
+  | .length _ i => loopFree i
+  | .read _ off => loopFree off
+  | .neg e => loopFree e
+  | .bnot e => loopFree e
+  | .arith _ a b => loopFree a && loopFree b
+  | .foundAt _ pos => loopFree pos
+  | .foundIn _ lo hi => loopFree lo && loopFree hi
+  | .cmp _ a b => loopFree a && loopFree b
+  | .strop _ a b => loopFree a && loopFree b
+  | .matches a _ _ => loopFree a
+  | .not e => loopFree e
+  | .defined e => loopFree e
+  | .and a b => loopFree a && loopFree b
+  | .or a b => loopFree a && loopFree b
+  | .ofStr _ qe _ => loopFree qe
+  | .ofStrIn _ qe _ lo hi => loopFree qe && loopFree lo && loopFree hi
+  | .ofStrAt _ qe _ pos => loopFree qe && loopFree pos
+  | .ofRules _ qe _ => loopFree qe
+  | .pctStr _ _ | .pctRules _ _ | .forRange .. | .forEnum .. | .forOf .. => false
+  | _ => true
+
 /-- a rule's condition (`boolean_expression`) -/
 def compileRule (c : Ctx) (cond : Expr) : List Instr := compile c cond ++ strToBool (tyOf c cond)
 
